@@ -64,7 +64,7 @@ def run(ctx):
     # configuration (C07-R1, re-evaluated here)
     from .c07 import serializer_config
 
-    serializer_config(ctx.sub("DEP-C07"))
+    serializer_config(ctx.sub("DEP-C07"), published=False)
 
     # ---- R3 agreement + exact gate
     agreement(ctx, "R3")
